@@ -30,14 +30,14 @@ vars == <<evs, lists, aggs, hist, last, steps>>
 
 BaseKeys(c) == <<"tp", "sq_" \o c>>
 Res(c, i) == <<"res", c, i>>
-Opts == [result_all : BOOLEAN, sgt : BOOLEAN, log : BOOLEAN, pool : {"serial", "real"}]
+Opts == [result_all : BOOLEAN, sgt : BOOLEAN, log : BOOLEAN, verbose : BOOLEAN, pool : {"serial", "real"}]
 
 Init == evs = <<>> /\ lists = <<>> /\ aggs = <<>> /\ hist = <<>> /\ steps = 0
-        /\ last = [act |-> "init", e |-> 0, c |-> "-", inp |-> "-", sgt |-> FALSE, ra |-> TRUE, log |-> FALSE, pool |-> "serial"]
+        /\ last = [act |-> "init", e |-> 0, c |-> "-", inp |-> "-", sgt |-> FALSE, ra |-> TRUE, log |-> FALSE, vb |-> FALSE, pool |-> "serial"]
 
 Tick == steps < MaxSteps /\ steps' = steps + 1
-Act(a, e, c, i, o) == last' = [act |-> a, e |-> e, c |-> c, inp |-> i, sgt |-> o.sgt, ra |-> o.result_all, log |-> o.log, pool |-> o.pool]
-NoOpts == [result_all |-> TRUE, sgt |-> FALSE, log |-> FALSE, pool |-> "serial"]
+Act(a, e, c, i, o) == last' = [act |-> a, e |-> e, c |-> c, inp |-> i, sgt |-> o.sgt, ra |-> o.result_all, log |-> o.log, vb |-> o.verbose, pool |-> o.pool]
+NoOpts == [result_all |-> TRUE, sgt |-> FALSE, log |-> FALSE, verbose |-> FALSE, pool |-> "serial"]
 
 NewEvaluator(c, sgt) ==
     /\ Tick /\ Len(evs) < MaxEvaluators
